@@ -602,6 +602,7 @@ pub fn run_real(prop: &str, tier: &str, seed: u64, threads: usize, known: &Known
     match prop {
         "C12" => run_c12(tier, seed, threads, known),
         "C13" => run_c13_conformance(tier, seed, threads),
+        "C18" => run_c18_real_env(tier),
         _ => RealReport::default(),
     }
 }
@@ -1082,6 +1083,30 @@ fn run_c13_verbatim_real(seed: u64, rep: &mut RealReport) {
 }
 
 pub fn replay_real(path: &str, text: &str) -> i32 {
+    if text.contains("\"real_env\": true") {
+        let c: EnvCase = match serde_json::from_str(text) {
+            Ok(c) => c,
+            Err(e) => {
+                eprintln!("vsim: {}: {}", path, e);
+                return 2;
+            }
+        };
+        return match (check_env_case(&c), check_env_case(&c)) {
+            (Ok(Some(d1)), Ok(Some(_))) => {
+                println!("violation C18/environment-differs-real: {}", d1);
+                println!("VIOLATION property=C18 replay={}", path);
+                1
+            }
+            (Ok(None), Ok(None)) => {
+                println!("vsim: {} does not reproduce on this tree", path);
+                0
+            }
+            (a, b) => {
+                println!("vsim: replay of {} is not stable: {:?} / {:?}", path, a, b);
+                2
+            }
+        };
+    }
     if text.contains("\"real_expr\": true") {
         let c: ExprCase = match serde_json::from_str(text) {
             Ok(c) => c,
@@ -1131,4 +1156,284 @@ pub fn replay_real(path: &str, text: &str) -> i32 {
             2
         }
     }
+}
+
+// ---------------------------------------------------------------------------------------------
+// C18, real bash: what a test case SEES (after the state of earlier test cases was loaded) -
+// the simulated tier checks the environment scrut hands to each shell, not what the carrier
+// template makes of it.
+
+#[derive(Clone, Debug, PartialEq, Eq, Serialize, Deserialize)]
+pub struct EnvCase {
+    pub real_env: bool,
+    /// "md" | "cram"
+    pub format: String,
+    /// "tmp" | "work" | "keep"
+    pub dirmode: String,
+    /// documents of the run; all have the same file name, in different directories
+    pub n_docs: usize,
+    pub n_tests: usize,
+    /// test case (index) that also changes shell state, so that the state file is not trivial
+    pub state_change_at: Option<usize>,
+}
+
+const ENV_PROBE_VARS: &[&str] = &["SCRUT_TEST", "TESTDIR", "TESTFILE", "TESTSHELL", "TMPDIR", "LANG", "LANGUAGE", "LC_ALL", "TZ", "COLUMNS", "CDPATH", "GREP_OPTIONS"];
+
+fn env_probe_cmd(out: &Path, extra: &str) -> String {
+    let mut s = String::from("{ ");
+    for v in ENV_PROBE_VARS {
+        s.push_str(&format!("echo \"{}=${{{}-<unset>}}\"; ", v, v));
+    }
+    s.push_str("echo \"PWD=$(pwd -P)\"; [ -d \"$TMPDIR\" ] && echo TMPDIR_IS_DIR=1; ");
+    s.push_str(&format!("}} > '{}' 2>&1{}", out.display(), extra));
+    s
+}
+
+fn check_env_case(c: &EnvCase) -> Result<Option<String>, String> {
+    let root = tempfile::Builder::new().prefix("ve.").tempdir_in(scratch_root()).map_err(|e| e.to_string())?;
+    let canon = |p: &Path| std::fs::canonicalize(p).unwrap_or_else(|_| p.to_path_buf());
+    let base = canon(root.path());
+    let tmp = base.join("tmp");
+    let probes = base.join("probes");
+    let work = base.join("work");
+    for d in [&tmp, &probes, &work] {
+        std::fs::create_dir_all(d).map_err(|e| e.to_string())?;
+    }
+    let md = c.format == "md";
+    let fname = if md { "same name.md" } else { "same name.t" };
+    // documents
+    let mut docs: Vec<(PathBuf, Vec<(usize, PathBuf)>)> = vec![];
+    for d in 0..c.n_docs {
+        let dir = base.join(format!("docs/d{}", d));
+        std::fs::create_dir_all(&dir).map_err(|e| e.to_string())?;
+        let path = dir.join(fname);
+        let mut lines: Vec<String> = vec![];
+        let mut tests = vec![];
+        lines.push(if md { format!("# document {}", d) } else { format!("document {}", d) });
+        lines.push(String::new());
+        for k in 0..c.n_tests {
+            let out = probes.join(format!("d{}.t{}", d, k));
+            let extra = if c.state_change_at == Some(k) { "; VS_USER=carried; vs_fn() { :; }; alias vs_al=true" } else { "" };
+            let cmd = env_probe_cmd(&out, extra);
+            if md {
+                lines.push(format!("## test {}", k));
+                lines.push(String::new());
+                lines.push("```scrut".into());
+                tests.push((lines.len() + 1, out));
+                lines.push(format!("$ {}", cmd));
+                lines.push("```".into());
+                lines.push(String::new());
+            } else {
+                lines.push(format!("test {}:", k));
+                tests.push((lines.len() + 1, out));
+                lines.push(format!("  $ {}", cmd));
+                lines.push(String::new());
+            }
+        }
+        std::fs::write(&path, lines.join("\n") + "\n").map_err(|e| e.to_string())?;
+        docs.push((path, tests));
+    }
+    // run the hooked binary without a scenario: everything passes through to the real system
+    let mut cmd = Command::new(crate::runcli::scrut_bin());
+    cmd.arg("test");
+    match c.dirmode.as_str() {
+        "work" => {
+            cmd.arg("--work-directory").arg(&work);
+        }
+        "keep" => {
+            cmd.arg("--keep-temporary-directories");
+        }
+        _ => {}
+    }
+    for (p, _) in &docs {
+        cmd.arg(p);
+    }
+    cmd.env_remove("SCRUT_VERIF_SCENARIO").env_remove("SCRUT_VERIF_LOG").env("TMPDIR", &tmp).env("HOME", "/nonexistent-home").current_dir(&base);
+    cmd.stdin(Stdio::null()).stdout(Stdio::piped()).stderr(Stdio::piped());
+    let out = cmd.output().map_err(|e| e.to_string())?;
+    let mut wrong: Vec<String> = vec![];
+    if out.status.code() != Some(0) {
+        wrong.push(format!(
+            "scrut exited with {:?}: {} {}",
+            out.status.code(),
+            String::from_utf8_lossy(&out.stdout).chars().take(300).collect::<String>(),
+            String::from_utf8_lossy(&out.stderr).chars().take(300).collect::<String>()
+        ));
+    }
+    let mut cwds: Vec<String> = vec![];
+    for (d, (path, tests)) in docs.iter().enumerate() {
+        let mut doc_pwd: Option<String> = None;
+        let mut doc_tmp: Option<String> = None;
+        for (k, (line, probe)) in tests.iter().enumerate() {
+            let text = match std::fs::read_to_string(probe) {
+                Ok(t) => t,
+                Err(_) => {
+                    wrong.push(format!("document {} test {}: did not run", d, k));
+                    continue;
+                }
+            };
+            let got: BTreeMap<&str, &str> = text.lines().filter_map(|l| l.split_once('=')).collect();
+            let g = |k: &str| got.get(k).copied().unwrap_or("<no line>");
+            let mut want: Vec<(&str, String)> = vec![
+                ("TESTFILE", fname.to_string()),
+                ("LANG", "C".into()),
+                ("LANGUAGE", "C".into()),
+                ("LC_ALL", "C".into()),
+                ("TZ", "GMT".into()),
+                ("COLUMNS", "80".into()),
+                ("CDPATH", "".into()),
+                ("GREP_OPTIONS", "".into()),
+            ];
+            if md {
+                want.push(("SCRUT_TEST", format!("{}:{}", path.display(), line)));
+            }
+            for (key, val) in &want {
+                if g(key) != val {
+                    wrong.push(format!("document {} test {}: sees {}={:?}, documented {:?}", d, k, key, g(key), val));
+                }
+            }
+            if canon(Path::new(g("TESTDIR"))) != canon(path.parent().unwrap()) {
+                wrong.push(format!("document {} test {}: sees TESTDIR={:?}, the document is in {:?}", d, k, g("TESTDIR"), path.parent().unwrap()));
+            }
+            if canon(Path::new(g("TESTSHELL"))) != canon(Path::new("/bin/bash")) {
+                wrong.push(format!("document {} test {}: sees TESTSHELL={:?}", d, k, g("TESTSHELL")));
+            }
+            if g("TMPDIR_IS_DIR") != "1" {
+                wrong.push(format!("document {} test {}: TMPDIR={:?} is not a directory", d, k, g("TMPDIR")));
+            }
+            let t = canon(Path::new(g("TMPDIR")));
+            let home = if c.dirmode == "work" { &work } else { &tmp };
+            if !t.starts_with(home) {
+                wrong.push(format!("document {} test {}: TMPDIR={:?} is outside {:?}", d, k, g("TMPDIR"), home));
+            }
+            match &doc_tmp {
+                None => doc_tmp = Some(g("TMPDIR").to_string()),
+                Some(x) if x != g("TMPDIR") => wrong.push(format!("document {} test {}: TMPDIR changes within the document ({} / {})", d, k, x, g("TMPDIR"))),
+                _ => {}
+            }
+            match &doc_pwd {
+                None => doc_pwd = Some(g("PWD").to_string()),
+                Some(x) if x != g("PWD") => wrong.push(format!("document {} test {}: working directory changes within the document ({} / {})", d, k, x, g("PWD"))),
+                _ => {}
+            }
+        }
+        if let Some(p) = doc_pwd {
+            if c.dirmode == "work" {
+                if canon(Path::new(&p)) != work {
+                    wrong.push(format!("document {}: runs in {:?} although --work-directory {:?}", d, p, work));
+                }
+            } else {
+                if !canon(Path::new(&p)).starts_with(&tmp) {
+                    wrong.push(format!("document {}: runs in {:?}, outside the temporary directory", d, p));
+                }
+                if cwds.contains(&p) {
+                    wrong.push(format!("document {}: shares its working directory {:?} with another document", d, p));
+                }
+                cwds.push(p);
+            }
+        }
+    }
+    // clean-up
+    let left = |p: &Path| -> Vec<String> {
+        let mut v: Vec<String> = std::fs::read_dir(p).map(|r| r.filter_map(|e| e.ok()).map(|e| e.file_name().to_string_lossy().to_string()).collect()).unwrap_or_default();
+        v.sort();
+        v
+    };
+    match c.dirmode.as_str() {
+        "tmp" => {
+            if !left(&tmp).is_empty() {
+                wrong.push(format!("after exit the temporary directory still contains {:?}", left(&tmp)));
+            }
+        }
+        "work" => {
+            if !work.is_dir() {
+                wrong.push("the --work-directory was removed".into());
+            }
+            if !left(&work).is_empty() || !left(&tmp).is_empty() {
+                wrong.push(format!("after exit --work-directory contains {:?}, the temporary directory {:?}", left(&work), left(&tmp)));
+            }
+        }
+        _ => {
+            if left(&tmp).is_empty() {
+                wrong.push("--keep-temporary-directories: nothing was kept".into());
+            }
+        }
+    }
+    if wrong.is_empty() {
+        Ok(None)
+    } else {
+        wrong.truncate(4);
+        Ok(Some(normalise(wrong.join("; ").as_bytes(), &base)))
+    }
+}
+
+fn run_c18_real_env(_tier: &str) -> RealReport {
+    let mut rep = RealReport::default();
+    let mut cases = vec![];
+    for format in ["md", "cram"] {
+        for dirmode in ["tmp", "work", "keep"] {
+            for n_docs in [1usize, 2, 3] {
+                for (n_tests, sc) in [(1usize, None), (3, None), (3, Some(0)), (4, Some(1))] {
+                    cases.push(EnvCase { real_env: true, format: format.into(), dirmode: dirmode.into(), n_docs, n_tests, state_change_at: sc });
+                }
+            }
+        }
+    }
+    let _ = std::fs::create_dir_all(format!("{}/replays", crate::out_dir()));
+    let mut reported = 0;
+    for c in &cases {
+        rep.runs += 1;
+        rep.signatures.push(format!("R|env|{}|{}|{}|{}|{:?}", c.format, c.dirmode, c.n_docs, c.n_tests, c.state_change_at));
+        match check_env_case(c) {
+            Err(e) => rep.harness_errors.push(format!("[real env] {}", e)),
+            Ok(None) => {}
+            Ok(Some(detail)) => {
+                if reported >= 3 {
+                    continue;
+                }
+                // minimise: fewer documents, fewer test cases, no state change
+                let mut best = c.clone();
+                loop {
+                    let mut cands = vec![];
+                    if best.n_docs > 1 {
+                        cands.push(EnvCase { n_docs: best.n_docs - 1, ..best.clone() });
+                    }
+                    if best.n_tests > 1 && best.state_change_at.map_or(true, |k| k + 1 < best.n_tests) {
+                        cands.push(EnvCase { n_tests: best.n_tests - 1, ..best.clone() });
+                    }
+                    if best.state_change_at.is_some() {
+                        cands.push(EnvCase { state_change_at: None, ..best.clone() });
+                    }
+                    match cands.into_iter().find(|t| matches!(check_env_case(t), Ok(Some(_)))) {
+                        Some(t) => best = t,
+                        None => break,
+                    }
+                }
+                let d2 = match (check_env_case(&best), check_env_case(&best)) {
+                    (Ok(Some(a)), Ok(Some(_))) => a,
+                    _ => {
+                        rep.harness_errors.push(format!("[real env] difference does not reproduce: {}", detail));
+                        continue;
+                    }
+                };
+                println!("vsim: C18/environment-differs-real - {}", d2);
+                let text = serde_json::to_string_pretty(&best).unwrap();
+                let mut hsh = 0xcbf29ce484222325u64;
+                for ch in text.bytes() {
+                    hsh ^= ch as u64;
+                    hsh = hsh.wrapping_mul(0x100000001b3);
+                }
+                let path = format!("{}/replays/C18-environment-differs-real-{:08x}.json", crate::out_dir(), hsh as u32);
+                if rep.violation_replays.contains(&path) {
+                    continue;
+                }
+                if std::fs::write(&path, text).is_ok() {
+                    rep.violation_replays.push(path);
+                    reported += 1;
+                }
+            }
+        }
+    }
+    rep.coverage = serde_json::json!({"real_env_cases": cases.len(), "variables_probed": ENV_PROBE_VARS});
+    rep
 }
